@@ -23,6 +23,8 @@ void vs_hash_region(void *p, size_t n);
 /* deadlock notification: called by the scheduler in the context of an arbitrary thread when no
  * thread is enabled; default prints state and _exit(3). */
 extern void (*vs_on_deadlock)(void);
+/* Threads created (svt_create_thread / vs_thread_create) and not yet joined (svt_destroy_thread / vs_thread_join); -1 free-running */
+int vs_unjoined(void);
 /* Number of decision points so far */
 long vs_points(void);
 /* explicit-state exploration of body over all interleavings (fork per execution, shared visited set) */
